@@ -2142,6 +2142,8 @@ class EdgeQLSourceGenerator(codegen.SourceGenerator):
                 and isinstance(node.commands[0], qlast.SetField)
                 and node.commands[0].name == 'expr'
                 and not isinstance(node.target, qlast.TypeExpr)
+                # SDL has no `OVERLOADED ... := <expr>` form.
+                and not (self.sdlmode and node.declared_overloaded)
             )
         )
 
